@@ -31,5 +31,7 @@ pub fn run(tier: &str, seed: u64, only: Option<&str>) -> Run {
             Err(e) => run.fail("oracle:prepare", "", &c.id, e, c.text.clone()),
         }
     }
+    // nested-object generation from raw slider parameters (SLEV / OSLD / JUICE / ONER lines)
+    crate::nested::run(&mut run, tier, seed, only);
     run
 }
